@@ -24,6 +24,8 @@ func checkC04(c *Ctx) {
 	c.Rule("C04.R4", "conflict classification at the API: lease-not-found/expired ⇒ 409 ⇒ FailedPrecondition; the idempotency cache is written only after a Store success and never consulted by Extend")
 	c.Rule("C04.R5", "ids entering the idempotency cache are settled ids: the id just passed to the Store call that returned nil, or — after a batch call — a presented id kept only when absent (by key presence) from a set holding the LeaseID of every conflict of that call")
 	c.Rule("C04.R6", "the batch lease-id normalisers of both transports forward each id in the form they de-duplicated it under (the trimmed id), and agree with each other")
+	c.Rule("C04.R7", "a stale call changes nothing beyond returning an expired message to the queue: every transition to queued that is not the nack itself (lease expiry found by a settle call, sweep, operator requeue) stores next_run_at = now — the stale caller's delay has no effect (same obligations as C05.R3)")
+	checkVisibilityTimes(c, "C04.R7")
 	checkSQLFencing(c, "C04.R1")
 	checkMemoryFencing(c, "C04.R2")
 	checkFailedOpEffectFree(c, "C04.R3", isLeaseOp)
